@@ -187,6 +187,9 @@ def pctResult (q : Int) (found count : Nat) : Int :=
   if isU q || count == 0 then C.UNDEF
   else C.b2i (decide ((Float.ofNat found / Float.ofNat count) * 100 ≥ Float.ofInt q))
 
+/-- OP_ITER_CONDITION first normalises the body's value: every defined non-zero value counts exactly once -/
+def normW (r : Int) : Int := if isU r then r else C.b2i (r != 0)
+
 /-- OP_ITER_CONDITION: should the loop go on? (`q` quantifier word, `t` true-count so far, `r` body result) -/
 def contWord (q t r : Int) : Bool :=
   if isU q then r != 0 else if q == 0 then r != 1 else decide (C.add t r < q)
@@ -299,7 +302,7 @@ def step (env : Env) (i : Instr) (s : St) : Option St :=
         | none => next (C.UNDEF :: 1 :: it :: st)
       | none => none
   | .iterCondition, q :: t :: r :: st =>
-      next (r :: C.b2i (contWord q t r) :: st)
+      next (normW r :: C.b2i (contWord q t (normW r)) :: st)
   | .iterEnd, q :: t :: n :: st =>
       next (endWord q t n :: st)
   | _, _ => none
